@@ -61,7 +61,7 @@ func filter(only bool, opt *Option, profile string) (string, error) {
 		regRemoveLine := regexp.MustCompile(`(?m)^` + regexp.QuoteMeta(opt.Raw) + `$`)
 		profile = regRemoveLine.ReplaceAllLiteralString(profile, "")
 	} else {
-		regRemoveParagraph := regexp.MustCompile(`(?sm)^` + regexp.QuoteMeta(opt.Raw) + `\n.*?\n\n`)
+		regRemoveParagraph := regexp.MustCompile(`(?m)^` + regexp.QuoteMeta(opt.Raw) + `\n(?:[^\n]+\n)*\n`)
 		profile = regRemoveParagraph.ReplaceAllString(profile, "")
 	}
 	return profile, nil
